@@ -260,10 +260,9 @@ def canon(cas, fmt="xmi"):
     for sofa in cas.sofas:
         for fs in cas.get_view(sofa.sofaID).select_all():
             visit(fs)
-    if fmt == "json":
-        for sofa in cas.sofas:
-            if sofa.sofaArray is not None:
-                visit(sofa.sofaArray)
+    for sofa in cas.sofas:  # the byte array holding the data of a sofa is written by both formats
+        if sofa.sofaArray is not None:
+            visit(sofa.sofaArray)
 
     # a collection inlined somewhere may also be indexed or referenced through another path; then it is written separately too
     def cv(v):
